@@ -150,6 +150,59 @@ theorem field_frame (hs ss : List Str) (L post : Str)
       rw [this] at hv; exact hv
     · simp only [List.length_append, List.length_singleton] at hhi; omega
 
+/-- the frame when the last-token line `L` is the last line and has no newline after it (`ss` non-empty: the first
+    section line must be terminated to be seen by `_get_token_start_idx`) -/
+theorem field_frame_unterminated (hs ss : List Str) (L : Str)
+    (hh : hs.all headerLineOk = true) (hss : ss.all lineOk = true)
+    (hF : fieldStart (ss.headD []) = true) (hne : ss ≠ []) (hL : lastEv none [] L .none = .plain) :
+    tokenStartIdx (unlines (hs ++ ss) ++ L).toArray = ((unlines hs).length : Int)
+    ∧ deriveFormat (unlines (hs ++ ss) ++ L).toArray ≠ .numpydoc
+    ∧ ∃ lf : Int, lastDocStrToken (unlines (hs ++ ss) ++ L).toArray = some lf
+        ∧ ((unlines (hs ++ ss)).length : Int) ≤ lf ∧ lf < ((unlines (hs ++ ss)).length + L.length : Nat) := by
+  obtain ⟨F, tl, hFt⟩ : ∃ F tl, ss = F :: tl := by
+    cases ss with
+    | nil => exact absurd rfl hne
+    | cons F tl => exact ⟨F, tl, rfl⟩
+  subst hFt
+  simp only [List.headD_cons] at hF
+  have hFok : '\n' ∉ F := lineOk_sound F (List.all_eq_true.mp hss F List.mem_cons_self)
+  have hd : unlines (hs ++ F :: tl) ++ L = unlines hs ++ (F ++ '\n' :: (unlines tl ++ L)) := by
+    simp [unlines_append, unlines_cons]
+  refine ⟨?_, ?_, ?_⟩
+  · rw [tokenStartIdx_eq, hd, startScan_header _ hs _ 0 (headerOk_sound hs hh)]
+    obtain ⟨h1, h2⟩ := fieldStart_fires F hF
+    rw [startScan_fire _ F _ _ hFok h1 h2]; simp
+  · rw [hd]
+    have := deriveFormat_ne_numpydoc (unlines hs) F ('\n' :: (unlines tl ++ L)) hF
+    rw [List.append_assoc] at this; exact this
+  · obtain ⟨v, hv, hlo, hhi⟩ := lastTok_struct (unlines (hs ++ F :: tl)) L [] (unlines_end _) hL (Or.inl rfl) rfl
+    rw [List.append_nil] at hv
+    exact ⟨v, hv, hlo, by omega⟩
+
+theorem tokens_head_nd : tokensSet.all (fun t => match t.toList with | c :: _ => c != '-' | [] => false) = true := by decide
+
+/-- a line that starts (after indentation) with a token is not made of dashes -/
+theorem tokStart_not_dashes (L : Str) (h : startsWithAny tokensSet (lstrip L) = true) : (!L.isEmpty && allDashes L) = false := by
+  unfold startsWithAny at h
+  rw [List.any_eq_true] at h
+  obtain ⟨t, ht, hp⟩ := h
+  have h1 := List.all_eq_true.mp tokens_head_nd t ht
+  rw [List.isPrefixOf_iff_prefix] at hp
+  obtain ⟨r, hr⟩ := hp
+  cases htl : t.toList with
+  | nil => rw [htl] at h1; cases h1
+  | cons c cs =>
+    rw [htl] at h1 hr
+    have hc : c ≠ '-' := by simpa using h1
+    have hm : c ∈ L := by
+      obtain ⟨ws, hws⟩ := lstrip_decomp L
+      rw [hws, ← hr]; simp
+    cases hd : allDashes L with
+    | false => simp
+    | true =>
+      have := List.all_eq_true.mp hd c hm
+      exact absurd (beq_iff_eq.mp this) hc
+
 /-! ### from the index pair to the parts, the partition and `ensure_doc_args_whence_original` -/
 
 theorem idxPair_of (d : Str) (s l : Int) (h1 : tokenStartIdx d.toArray = s) (h2 : tokenLastIdx d.toArray = .ok l) :
@@ -279,5 +332,61 @@ theorem lastLine_append_nl (a : Str) : lastLine (a ++ ['\n']) = [] := by
 
 /-- the footer of the absorbed shape: the last line without its indentation — unless it starts with a token -/
 def absorbedFooter (d : Str) : Str := if startsWithAny tokensSet (lstrip (lastLine d)) then [] else lstrip (lastLine d)
+
+theorem takeWhile_append_stop {α : Type} (p : α → Bool) (x : List α) (c : α) (y : List α) (hc : p c = false)
+    (hx : ∀ a ∈ x, p a = true) : (x ++ c :: y).takeWhile p = x := by
+  induction x with
+  | nil => simp [hc]
+  | cons a as ih =>
+    have ha := hx a List.mem_cons_self
+    simp only [List.cons_append, List.takeWhile_cons, ha, if_true]
+    rw [ih (fun b hb => hx b (List.mem_cons_of_mem _ hb))]
+
+/-- the last line of `a ++ '\n' :: b` lies inside `b` -/
+theorem lastLine_le (a b : Str) : (lastLine (a ++ '\n' :: b)).length ≤ b.length := by
+  unfold lastLine
+  rw [List.length_reverse]
+  have hr : (a ++ '\n' :: b).reverse = b.reverse ++ '\n' :: a.reverse := by simp
+  rw [hr]
+  have hsplit := List.takeWhile_append_dropWhile (p := (· != '\n')) (l := b.reverse)
+  cases hdw : b.reverse.dropWhile (· != '\n') with
+  | nil =>
+    rw [hdw, List.append_nil] at hsplit
+    rw [takeWhile_append_stop (fun x => x != '\n') _ _ _ (by simp)
+      (fun x hx => by rw [← hsplit] at hx; exact mem_takeWhile_pred (fun x => x != '\n') _ _ hx)]
+    simp
+  | cons c R =>
+    have hc : (c != '\n') = false := dropWhile_head_false (fun x => x != '\n') _ _ _ hdw
+    rw [hdw] at hsplit
+    rw [← hsplit, List.append_assoc, List.cons_append,
+      takeWhile_append_stop (fun x => x != '\n') _ c _ hc (fun x hx => mem_takeWhile_pred (fun x => x != '\n') _ _ hx)]
+    have := congrArg List.length hsplit
+    simp only [List.length_append, List.length_cons, List.length_reverse] at this
+    omega
+
+theorem absorbedFooter_suffix (d : Str) (h : '\n' ∈ d) : absorbedFooter d <:+ d := by
+  unfold absorbedFooter
+  split
+  · exact List.nil_suffix
+  · obtain ⟨A, hA⟩ := lastLine_decomp d h
+    obtain ⟨ws, hws⟩ := lstrip_decomp (lastLine d)
+    exact ⟨A ++ '\n' :: ws, by rw [List.append_assoc, List.cons_append, ← hws, ← hA]⟩
+
+theorem absorbedFooter_le (d : Str) : (absorbedFooter d).length ≤ (lastLine d).length := by
+  unfold absorbedFooter
+  split
+  · simp
+  · rw [← drop_leadingWs, List.length_drop]; omega
+
+/-- a prefix and a suffix that do not overlap leave a middle -/
+theorem split3 (d h f : Str) (hp : h <+: d) (hs : f <:+ d) (hlen : h.length + f.length ≤ d.length) :
+    ∃ sec, d = h ++ sec ++ f := by
+  obtain ⟨r, hr⟩ := hp
+  have hrs : r <:+ d := ⟨h, hr⟩
+  have hlr : f.length ≤ r.length := by
+    have := congrArg List.length hr
+    simp only [List.length_append] at this; omega
+  obtain ⟨sec, hsec⟩ := List.suffix_of_suffix_length_le hs hrs hlr
+  exact ⟨sec, by rw [List.append_assoc, hsec, hr]⟩
 
 end DSS
